@@ -176,6 +176,10 @@ func (d *DeviceRemote) UseCases() []model.UseCaseInformationDataType {
 	entity := d.Entity(DeviceInformationAddressEntity)
 
 	nodemgmt := d.FeatureByEntityTypeAndRole(entity, model.FeatureTypeTypeNodeManagement, model.RoleTypeSpecial)
+	if nodemgmt == nil {
+		// the feature list of the entity is being replaced by a detailed discovery message
+		return nil
+	}
 
 	data, ok := nodemgmt.DataCopy(model.FunctionTypeNodeManagementUseCaseData).(*model.NodeManagementUseCaseDataType)
 	if ok && data != nil {
